@@ -2,12 +2,20 @@
      (c17 ENV SCHEMA (ops OP...) (expect E...))     OP ::= (u V) | (v V)
    The expectations (what the property demands of each operation) are for the direct check on
    the implementation (lib/props_c17.py); the model evaluates the operations exactly as in the
-   schema family, so its predictions carry the full error paths (markers included). *)
-From Verif Require Import Base.Prelude Base.Str Interp.Sexp Interp.RunSchema.
+   schema family, so its predictions carry the full error paths (markers included).
+     (c17x ENV STRUCTS XSCHEMA (ops OP...) (expect E...))
+   the same for struct-mapped objects: evaluated exactly as in the structobj family (Schema/XOps.v). *)
+From Verif Require Import Base.Prelude Base.Str Interp.Sexp Interp.RunSchema Interp.RunXSchema.
 Open Scope string_scope.
 
 Definition run_c17_case (x : sexp) : sexp :=
   match x with
   | Ls [At "c17"; ex; sx; ops; _] => run_schema_case (Ls [At "sch"; ex; sx; ops])
   | _ => bad "c17 case"
+  end.
+
+Definition run_c17x_case (x : sexp) : sexp :=
+  match x with
+  | Ls [At "c17x"; ex; stx; sx; ops; _] => run_xschema_case (Ls [At "xsch"; ex; stx; sx; ops])
+  | _ => bad "c17x case"
   end.
